@@ -348,6 +348,9 @@ def rule_e(ctx):
                         name = fn.attr if isinstance(fn, ast.Attribute) else (fn.id if isinstance(fn, ast.Name) else '')
                         if name in ('create_task', '_start_task_if_not_closing'):
                             var = n.targets[0].id
+                            if any(isinstance(r, ast.Return) and isinstance(r.value, ast.Name) and r.value.id == var
+                                   for r in walk_local(f.node)):
+                                continue  # handed to the caller, who owns (and stores) it
                             in_finally = False
                             for t in walk_local(f.node):
                                 if isinstance(t, ast.Try) and t.finalbody:
